@@ -130,12 +130,12 @@ Section P.
       end
     else eval c prog f (chain ++ [r]) (prog ty r) st.
   Proof.
-    cbn [get].
+    unfold get. cbn [get_gen]. fold (get c prog).
     destruct (memN r chain); [reflexivity|].
     destruct (oc_on c); [|apply ev_eval].
     destruct (lookup r (ocache st)) as [[ty' v|e]|].
     - destruct (ty' =? ty); [reflexivity|apply ev_eval].
-    - destruct (fix_b c); [apply ev_eval|reflexivity].
+    - destruct (fix_b c); cbn [negb]; [apply ev_eval|reflexivity].
     - rewrite ev_eval. reflexivity.
   Qed.
 
@@ -660,3 +660,30 @@ Proof.
          (fun _ => Ok 0), (fun _ d => Ok d), (fun _ _ d => Ok d), 5%nat, [CGet 1 3; CGet 2 3].
   vm_compute. intros H. discriminate H.
 Qed.
+
+(** * the class of changes "serve a cached error of some kinds" is wrong for every kind
+
+    [get_gen serve] is [get] with the decision "return an error found in the cache (not computed by this call)
+    as it is?" left open.  The code answers no for every kind.  Whatever the kinds for which a variant answers
+    yes — missing object, wrong type, parse error, recursion, … — it breaks the property: reference 3 below fails
+    with kind k when it is loaded as type 1 and loads as type 2; after the first load the second one is served
+    the error. *)
+Definition kind_prog (k : N) (ty : tytag) (r : ref) : comp := if ty =? 1 then Ret (Err k) else Ret (Ok 7).
+
+Theorem serving_cached_errors_refuted : forall (serve : N -> bool) (k : N),
+  serve k = true ->
+  exists (prog : tytag -> ref -> comp) (rank : ref -> nat) (fuel : nat) (ty1 ty2 : tytag) (r : ref),
+    acyclic prog rank /\
+    let first := get_gen (cfg_fixed true true) prog serve fuel [] ty1 r init in
+    fst (get_gen (cfg_fixed true true) prog serve fuel [] ty2 r (snd first))
+    <> fst (get no_cache prog fuel [] ty2 r init).
+Proof.
+  intros serve k Hk.
+  exists (kind_prog k), (fun _ => O), 2%nat, 1, 2, 3.
+  split; [intros ty r; unfold kind_prog; destruct (ty =? 1); exact I|].
+  cbv. rewrite Hk. discriminate.
+Qed.
+
+(* ... and the code's choice is the one the theorems are about *)
+Lemma get_is_get_gen_never : forall c prog, fix_b c = true -> get c prog = get_gen c prog (fun _ => false).
+Proof. intros c prog H. unfold get. rewrite H. reflexivity. Qed.
